@@ -223,6 +223,11 @@ func (c *ctx) conv(e ast.Expr, v string) (string, bool) {
 		if sel.Sel.Name == "ParseUint" {
 			fn = "parseUint"
 		}
+		if bits == 0 {
+			// strconv: bitSize 0 means the size of int/uint; the model fixes int/uint at 64 bits
+			// (the only platform the harness runs on), so the table records the width it denotes
+			bits = 64
+		}
 		return fmt.Sprintf("(.%s %d %d)", fn, base, bits), true
 	case "ParseFloat":
 		if len(call.Args) != 2 {
